@@ -382,6 +382,9 @@ class HookEval:
             self.tparam = "_"
         self.locals: dict[str, tuple] = {}
         self._inline_depth = 0
+        # names bound to folded VALUES (strings, type objects, tables) by helper inlining / loop unrolling
+        self.valenv: list[dict] = []
+        self._synth: dict = {}
 
     @property
     def name(self):
@@ -392,6 +395,9 @@ class HookEval:
 
     def free_value(self, name: str):
         """Value of a free variable of the hook in its evaluator closure, or _NOVALUE."""
+        for frame in reversed(self.valenv):
+            if name in frame:
+                return frame[name]
         c = self.closure
         if c is None:
             return self._NOVALUE
@@ -402,6 +408,25 @@ class HookEval:
             e = e.get("__parent__")
         g = getattr(c.interp, "globals", {})
         return g.get(name, self._NOVALUE)
+
+    def fold_value(self, node):
+        """Constant-fold an expression in the hook's closure (helper arguments, loop iterables); _NOVALUE if it
+        does not fold."""
+        if isinstance(node, ast.Name):
+            return self.free_value(node.id)
+        if isinstance(node, ast.Constant):
+            return node.value
+        c = self.closure
+        if c is None:
+            return self._NOVALUE
+        from .microeval import Raised
+        env = {"__parent__": c.env}
+        for frame in self.valenv:
+            env.update(frame)
+        try:
+            return c.interp.eval(node, env)
+        except (AnalysisError, Raised):
+            return self._NOVALUE
 
     def helper_fn(self, name: str):
         """A helper function visible from the hook: FunctionDef or None."""
@@ -421,6 +446,8 @@ class HookEval:
         except AnalysisError:
             if isinstance(node, ast.Name):
                 v = self.free_value(node.id)
+                if isinstance(v, type) and v.__name__ in PRIM_NAMES:
+                    return ("prim", v.__name__)
                 if v is not self._NOVALUE:
                     from .hooks import value_to_ty
                     return self.sh.types.resolve(value_to_ty(self.sh.types, v).ty)
@@ -575,6 +602,11 @@ class HookEval:
                 else:
                     return self._fork_any(w, p, v)
                 return r if isinstance(op, ast.Is) else not r
+            # a name bound to a folded string (loop unrolling / helper inlining) counts as that constant
+            if isinstance(left, ast.Name) and self.path_of(left, extra) is None:
+                lv = self.free_value(left.id)
+                if isinstance(lv, str):
+                    left = ast.copy_location(ast.Constant(value=lv), left)
             # "k" in X / "k" not in X
             if isinstance(op, (ast.In, ast.NotIn)) and isinstance(left, ast.Constant) and isinstance(left.value, str):
                 p = self.path_of(right, extra)
@@ -663,12 +695,22 @@ class HookEval:
         if isinstance(node, ast.Call) and dotted(node.func) in ("any", "all") and len(node.args) == 1 \
                 and isinstance(node.args[0], (ast.GeneratorExp, ast.ListComp)) and len(node.args[0].generators) == 1:
             return self._quantified(node, w, extra)
+        if isinstance(node, ast.Call) and isinstance(node.func, ast.Name) and node.func.id not in ("isinstance", "len", "any", "all") \
+                and not node.keywords and node.args:
+            hf = self.helper_fn(node.func.id)
+            if hf is not None and len(hf.args.args) == len(node.args) and self._inline_depth < 4:
+                return self._call_bool(hf, node.args, w, extra)
         if isinstance(node, ast.Call) and dotted(node.func) == "isinstance" and len(node.args) == 2:
             p = self.path_of(node.args[0], extra)
             if p is None:
                 raise AnalysisError(f"{self.rel}:{node.lineno}: unsupported isinstance operand in {self.name}")
             t = node.args[1]
             names = [dotted(e) for e in t.elts] if isinstance(t, ast.Tuple) else [dotted(t)]
+            if isinstance(t, ast.Name) and t.id not in PRIM_NAMES:
+                tv = self.free_value(t.id)
+                tvs = tv if isinstance(tv, tuple) else (tv,)
+                if all(isinstance(x, type) and x.__name__ in PRIM_NAMES for x in tvs):
+                    names = [x.__name__ for x in tvs]
             if any(n not in PRIM_NAMES for n in names):
                 raise AnalysisError(f"{self.rel}:{node.lineno}: isinstance against {names} in {self.name}")
             v = self.value_at(w, p)
@@ -892,6 +934,55 @@ class HookEval:
                     stack.append(w2)
         return out
 
+    def _bind_args(self, fn, args, extra):
+        """Arguments of an inlined helper: paths go to the path environment, everything else is folded to a value.
+        -> (extra', value frame) or None when an argument is neither."""
+        extra2 = dict(extra or {})
+        frame = {}
+        for prm, a in zip(fn.args.args, args):
+            p = self.path_of(a, extra)
+            if p is not None:
+                extra2[prm.arg] = p
+                continue
+            v = self.fold_value(a)
+            if v is self._NOVALUE:
+                return None
+            frame[prm.arg] = v
+        return extra2, frame
+
+    def _call_bool(self, fn, args, w, extra):
+        """A helper of the package used as a predicate: inlined."""
+        b = self._bind_args(fn, args, extra)
+        if b is None:
+            raise AnalysisError(f"{self.rel}:{fn.lineno}: arguments of helper {fn.name} do not fold")
+        extra2, frame = b
+        self._inline_depth += 1
+        self.valenv.append(frame)
+        try:
+            return self._bool_block(fn.body, w, extra2, fn)
+        finally:
+            self.valenv.pop()
+            self._inline_depth -= 1
+
+    def _bool_block(self, body, w, extra, fn):
+        for st in body:
+            if isinstance(st, ast.Expr) and isinstance(st.value, ast.Constant):
+                continue
+            if isinstance(st, ast.Return):
+                if st.value is None:
+                    return False
+                return self.truth(st.value, w, extra)
+            if isinstance(st, ast.If):
+                r = self._decide(st.test, w, extra)
+                if isinstance(r, tuple):
+                    return r
+                sub = self._bool_block(st.body if r else st.orelse, w, extra, fn)
+                if sub is not None:
+                    return sub
+                continue
+            raise AnalysisError(f"{self.rel}:{st.lineno}: statement {type(st).__name__} in predicate helper {fn.name}")
+        return None
+
     def _decide(self, node, w, extra=None):
         r = self.truth(node, w, extra)
         if r is BOTH:
@@ -954,10 +1045,72 @@ class HookEval:
             if isinstance(st, ast.Try):
                 raise AnalysisError(f"{self.rel}:{st.lineno}: try/except inside hook {self.name} "
                                     "(may swallow structuring errors; not modelled)")
+            if isinstance(st, ast.For) and not st.orelse:
+                res = self._exec_for(st, w, extra)
+                if res is not None:
+                    return res
+                continue
             if isinstance(st, (ast.For, ast.While)):
                 raise AnalysisError(f"{self.rel}:{st.lineno}: loop statement inside hook {self.name}")
             raise AnalysisError(f"{self.rel}:{st.lineno}: unsupported statement {type(st).__name__} "
                                 f"in hook {self.name}")
+        return None
+
+    def _exec_for(self, st: ast.For, w, extra):
+        """Two loop idioms: (a) `for item in <array path>: if TEST: return LEAF` == `if any(TEST ...): return LEAF`;
+        (b) a loop over a table that folds to a constant sequence: unrolled with the targets bound to values."""
+        p = self.path_of(st.iter, extra)
+        if p is not None:
+            body = [s_ for s_ in st.body if not (isinstance(s_, ast.Expr) and isinstance(s_.value, ast.Constant))]
+            # leading `if T: continue` guards become conjuncts `not T` of the final test
+            guards = []
+            while len(body) > 1 and isinstance(body[0], ast.If) and not body[0].orelse and len(body[0].body) == 1 \
+                    and isinstance(body[0].body[0], ast.Continue):
+                guards.append(ast.UnaryOp(op=ast.Not(), operand=body[0].test))
+                body = body[1:]
+            if len(body) == 1 and isinstance(body[0], ast.If) and not body[0].orelse and isinstance(st.target, ast.Name) \
+                    and len(body[0].body) == 1 and isinstance(body[0].body[0], ast.Return) and body[0].body[0].value is not None:
+                ret = body[0].body[0].value
+                test = body[0].test if not guards else ast.BoolOp(op=ast.And(), values=guards + [body[0].test])
+                if any(isinstance(n_, ast.Name) and n_.id == st.target.id for n_ in ast.walk(ret)):
+                    raise AnalysisError(f"{self.rel}:{st.lineno}: loop in {self.name} returns a value built from the loop variable")
+                key = ("synth-any", id(st))
+                synth = self._synth.get(key)
+                if synth is None:
+                    gen = ast.GeneratorExp(elt=test, generators=[ast.comprehension(target=st.target, iter=st.iter,
+                                                                                           ifs=[], is_async=0)])
+                    synth = ast.Call(func=ast.Name(id="any", ctx=ast.Load()), args=[gen], keywords=[])
+                    ast.copy_location(synth, st)
+                    ast.fix_missing_locations(synth)
+                    self._synth[key] = synth
+                r = self._decide(synth, w, extra)
+                if isinstance(r, tuple):
+                    return Leaf("error", node=st, what=r[1])
+                return self._leaf(ret, w, extra) if r else None
+            raise AnalysisError(f"{self.rel}:{st.lineno}: loop over the input in {self.name} is not of the form "
+                                "`for x in value: if TEST: return ...`")
+        table = self.fold_value(st.iter)
+        if table is self._NOVALUE or not isinstance(table, (list, tuple)):
+            raise AnalysisError(f"{self.rel}:{st.lineno}: loop in {self.name} over something that is neither the input nor a constant table")
+        if len(table) > 64:
+            raise AnalysisError(f"{self.rel}:{st.lineno}: table too large to unroll")
+        for elem in table:
+            frame = {}
+            if isinstance(st.target, ast.Name):
+                frame[st.target.id] = elem
+            elif isinstance(st.target, ast.Tuple) and all(isinstance(e, ast.Name) for e in st.target.elts) \
+                    and isinstance(elem, (tuple, list)) and len(elem) == len(st.target.elts):
+                for e, v in zip(st.target.elts, elem):
+                    frame[e.id] = v
+            else:
+                raise AnalysisError(f"{self.rel}:{st.lineno}: unsupported loop target in {self.name}")
+            self.valenv.append(frame)
+            try:
+                res = self._exec_block(st.body, w, extra)
+            finally:
+                self.valenv.pop()
+            if res is not None:
+                return res
         return None
 
     def _leaf(self, node, w, extra=None):
@@ -988,16 +1141,21 @@ class HookEval:
             if d and d.endswith(".structure") and d != f"{self.conv}.structure":
                 return Leaf("foreign_converter", node=node, what=d)
             # helper function of the package applied to a path: inline it
-            if isinstance(node.func, ast.Name) and len(node.args) == 1 and not node.keywords:
-                hp = self.path_of(node.args[0], extra)
-                hf = self.helper_fn(node.func.id) if hp is not None else None
-                if hf is not None and len(hf.args.args) == 1 and self._inline_depth < 4:
-                    self._inline_depth += 1
-                    try:
-                        r = self._exec_block(hf.body, w, {**extra, hf.args.args[0].arg: hp})
-                    finally:
-                        self._inline_depth -= 1
-                    return r if r is not None else Leaf("fallthrough", node=hf)
+            if isinstance(node.func, ast.Name) and node.args and not node.keywords \
+                    and any(self.path_of(a, extra) is not None for a in node.args):
+                hf = self.helper_fn(node.func.id)
+                if hf is not None and len(hf.args.args) == len(node.args) and self._inline_depth < 4:
+                    b = self._bind_args(hf, node.args, extra)
+                    if b is not None:
+                        extra2, frame = b
+                        self._inline_depth += 1
+                        self.valenv.append(frame)
+                        try:
+                            r = self._exec_block(hf.body, w, extra2)
+                        finally:
+                            self.valenv.pop()
+                            self._inline_depth -= 1
+                        return r if r is not None else Leaf("fallthrough", node=hf)
             # direct construction:  C(**path)  /  E(path)
             splat = [k for k in node.keywords if k.arg is None]
             if len(splat) == 1 and not node.args and len(node.keywords) == 1:
